@@ -6,7 +6,7 @@ import props.C11 as C11
 PID = 'C16'
 PROPERTY_FILE = 'Properties/C16.v'
 # generated model parts (translate/) this property's model / proofs really depend on
-GEN_DEPS = ['EffectsImpl']
+GEN_DEPS = ['EffectsImpl', 'StateInventory']
 MODEL_TARGETS = R.MODEL_TARGETS
 PROOF_TARGETS = ['Proofs/C15Proofs.vo', 'Proofs/C11Proofs.vo', 'Proofs/EffectsProofs.vo']
 COQ_HEADER = R.COQ_HEADER
